@@ -587,11 +587,39 @@ class C06(Prop):
                 if not is_ns and last not in decl:
                     res.append(("broken", "panic-site inventory: justification of `%s` (%s) cites %s, which does not exist"
                                 % (e["line"][:60], e["file"], n), {"site": e["line"], "name": n}))
-        if not res:
+        res += self.overflow_probes()
+        if not [r for r in res if r[0] in ("broken", "violation")]:
             res.append(("note", "panic-site inventory: %d sites found on %d receive-path files, %d listed, 0 unlisted, "
                                 "%d stale table entries; %d distinct theorems cited by the justifications, all present"
                         % (out.get("found", 0), len(_inventory_files()), out.get("listed", 0),
                            out.get("stale_entries", 0), len(cited)), {}))
+        return res
+
+    PROBES = ["huff decn 00 536870912"]
+
+    def overflow_probes(self):
+        """Sites of the inventory whose only justification is a bound on the SIZE of the input (too large for a
+        generated case line) are probed directly on the real code: a panic here is a failing input unless it is a
+        listed finding (`case:<line>` in known_findings.json), in which case it is reported as KNOWN-FINDING."""
+        res = []
+        findings = vlib.load_findings()
+        for line in self.PROBES:
+            try:
+                rc, out, err = vlib.run_lines(vlib.RUN, [line], timeout=300)
+                got = out[0] if out else "abort"
+            except subprocess.TimeoutExpired:
+                got = "process-hang"
+            if got.startswith("ok") or got.startswith("err") or got.startswith("harness-error err"):
+                res.append(("note", "overflow probe `%s`: %s (no panic)" % (line, got), {}))
+                continue
+            fs = [f for f in findings.get("findings", []) if f.get("property") == self.id
+                  and f.get("status", "open") == "open" and f.get("key") == "case:" + line]
+            if fs:
+                res.append(("known", line, fs[0]))
+            else:
+                res.append(("violation", "overflow probe `%s`: %s" % (line, got),
+                            {"case": line, "impl": got, "model": "-", "spec": "ok ** || err **",
+                             "kind": "implementation panics / overflows on an input of the panic-site inventory's size probes"}))
         return res
 
     def shrink_candidates(self, line):
